@@ -14,9 +14,9 @@ from sa.report import Check                   # noqa: E402
 from sa import shared                         # noqa: E402
 
 ALL = [f"C{i:02d}" for i in range(1, 21)]
-# properties whose rule sets are aggregates of other properties' rules: not used as a source (their instances come from the
-# properties they aggregate)
-NOT_A_SOURCE = {"C13"}
+# properties whose rule sets span the whole package (C13: every transformation, every slot): a source only for the functions
+# P itself is anchored in (purity of its methods, ownership of the slots they store), not for the helpers P reaches
+ANCHORS_ONLY = {"C13"}
 
 
 def main():
@@ -34,9 +34,10 @@ def main():
         own_keys = {o["key"] for o in obs[p]}
         dep = {}
         for q in ALL:
-            if q == p or q in NOT_A_SOURCE:
+            if q == p:
                 continue
-            funcs = sorted({o["function"] for o in obs[q] if o["function"] in reach and o["key"] not in own_keys})
+            scope = set(anchors) if q in ANCHORS_ONLY else reach
+            funcs = sorted({o["function"] for o in obs[q] if o["function"] in scope and o["key"] not in own_keys})
             if funcs:
                 dep[q] = funcs
         out[p] = dep
